@@ -8,7 +8,8 @@
 export GOFLAGS=-mod=mod GOPROXY=off GOSUMDB=off GOTOOLCHAIN=local
 REPO="${1:-/repo}"
 OUT=$(mktemp)
-(cd "$REPO" && go test -json -vet=off -count=1 -timeout 25m ./... > "$OUT" 2>&1)
+trap 'rm -f "$OUT"' EXIT TERM INT
+(cd "$REPO" && go test -json -vet=off -count=1 -timeout 25m ./... 2>&1 | head -c 300000000 > "$OUT")
 python3 - "$OUT" "$REPO" <<'PY'
 import json,sys,subprocess
 base=json.load(open('/root/.vp/BASELINE.json'))
